@@ -57,7 +57,6 @@ TARGETS = {
         "BeaconConfig.from_path": ["C01"],
         "BeaconConfig.__init__": ["C01", "C14"],
         "iter_settings": ["C01", "C08"],
-        "BeaconConfig.settings_map": ["C14", "C01"],
         "BeaconConfig.raw_settings": ["C14"],
         "BeaconConfig.raw_settings_by_index": ["C14"],
         "BeaconConfig.settings": ["C14"],
